@@ -31,6 +31,7 @@ TOK = re.compile(r"""
  | (?P<tempty>!?\s*\b_tasks\s*\.\s*empty\s*\(\s*\))
  | (?P<tsize>\b_tasks\s*\.\s*size\s*\(\s*\))
  | (?P<room>\b_threads\s*\.\s*size\s*\(\s*\)\s*(?:\+\s*_pendingSpawns\s*)?<\s*_maxSize)
+ | (?P<startroom>\b_threads\s*\.\s*size\s*\(\s*\)\s*(?:<|<=|>|>=|!=|==)\s*workerCount)
  | (?P<pend>(?:\+\+|--)\s*(?:\w+\s*->\s*)?_pendingSpawns\b)
  | (?P<register>\b_threads\s*\.\s*emplace\s*\()
  | (?P<erase>\b_threads\s*\.\s*erase\s*\()
@@ -156,6 +157,8 @@ def skeleton(body, where, skip_lambda=False):
             k = m.group(0).find("_pendingSpawns")
             if k >= 0:
                 covered.append(m.start() + k)
+        elif m.group("startroom"):
+            ev.append(("room?:" + re.sub(r"\s+", "", m.group(0)), "_threads", held)); covered.append(m.start())
         elif m.group("pend"):
             ev.append(("pending" + m.group(0)[:2], "_pendingSpawns", held)); covered.append(m.start() + m.group(0).index("_pendingSpawns"))
         elif m.group("register"):
